@@ -86,7 +86,8 @@ class Ref:
         self.path = tuple(path)
 
     def __repr__(self):
-        return "&%s%s" % (self.obj.name, "".join("." + str(p[-1]) for p in self.path))
+        return "&%s%s" % (self.obj.name, "".join(
+            (".%s" % p[1]) if p[0] == "f" else ("@%s" % p[1] if p[0] == "v" else "[%s]" % p[1]) for p in self.path))
 
 
 class FnItem:
@@ -644,11 +645,12 @@ class Executor:
         blk = fn.blocks.get(bbname)
         if blk is None:
             raise Unsupported("missing block %s in %s" % (bbname, fn.short()))
-        n = fr.visits.get(bbname, 0) + 1
-        fr.visits[bbname] = n
-        bound = self.cfg.loop_bounds.get((fn.short(), bbname), self.cfg.unroll)
-        if n > bound + 1:
-            return self.ret_from(st, "cut", None, cut=bbname)
+        if bbname in loop_heads(fn):
+            n = fr.visits.get(bbname, 0) + 1
+            fr.visits[bbname] = n
+            bound = self.cfg.loop_bounds.get((fn.short(), bbname), self.cfg.unroll)
+            if n > bound + 1:
+                return self.ret_from(st, "cut", None, cut=bbname)
         for stt in blk.stmts:
             if stt[0] == "assign":
                 dest = stt[1]
@@ -886,6 +888,51 @@ class Executor:
 PANIC = object()
 
 
+def successors(blk):
+    t = blk.term
+    if t is None:
+        return []
+    k = t[0]
+    if k == "goto":
+        return [t[1]]
+    if k == "switch":
+        return [bb for _, bb in t[2]]
+    if k == "drop":
+        return [t[2]["return"]] if "return" in t[2] else []
+    if k == "assert":
+        return [t[4]["success"]]
+    if k == "call":
+        return [t[4]["return"]] if "return" in t[4] else []
+    return []
+
+
+def loop_heads(fn):
+    """targets of back edges of the (non-cleanup) CFG"""
+    if hasattr(fn, "_heads"):
+        return fn._heads
+    heads = set()
+    color = {}
+    stack = [("bb0", iter(successors(fn.blocks["bb0"])))] if "bb0" in fn.blocks else []
+    color["bb0"] = 1
+    while stack:
+        node, it = stack[-1]
+        nxt = next(it, None)
+        if nxt is None:
+            color[node] = 2
+            stack.pop()
+            continue
+        if nxt not in fn.blocks:
+            continue
+        c = color.get(nxt, 0)
+        if c == 1:
+            heads.add(nxt)
+        elif c == 0:
+            color[nxt] = 1
+            stack.append((nxt, iter(successors(fn.blocks[nxt]))))
+    fn._heads = heads
+    return heads
+
+
 def find_fn(fns, rx):
     hits = [f for f in fns.values() if re.search(rx, f.header)]
     if len(hits) == 1:
@@ -952,14 +999,12 @@ def _borrow(ex, st, fr, callee, args, dty):
         d = z3.Int("d_try_%d" % next(_ids))
         res = Enum(dty, d, {"Ok": {0: g, "_name": "Ok"}}, "tryborrow")
         outs = []
-        s_ok = st.clone() if True else st
         # fork: Ok (guard alive) / Err (no guard)
         if ex.feasible(st, d == 0):
-            s1 = st.clone()
+            s1, r1 = copy.deepcopy((st, res))
             s1.pc.append(d == 0)
-            r1 = copy.deepcopy(res)
             g1 = r1.payloads["Ok"][0]
-            s1.guards[g1.id] = (short_ty(cell.ty), kind, cell.id)
+            s1.guards[g1.id] = (cell.ty, kind, cell.id)
             s1.trace[-1].info["outcome"] = "Ok"
             outs.append((s1, r1))
         if ex.feasible(st, d == 1):
@@ -968,7 +1013,7 @@ def _borrow(ex, st, fr, callee, args, dty):
             s2.trace[-1].info["outcome"] = "Err"
             outs.append((s2, Enum(dty, d, {}, "tryborrow_err")))
         return outs
-    st.guards[g.id] = (short_ty(cell.ty), kind, cell.id)
+    st.guards[g.id] = (cell.ty, kind, cell.id)
     return [(st, g)]
 
 
@@ -982,23 +1027,77 @@ def _cell_op(ex, st, fr, callee, args, dty):
     return [(st, ret)]
 
 
-def _disc_fork(ex, st, val, n):
-    """fork on the discriminant of an Enum value into n cases -> [(state, value, idx)]"""
+def _disc_fork(ex, st, val, n, extra=None):
+    """fork on the discriminant of an Enum value into n cases -> [(state, value, idx)]
+    (with `extra`: [(state, value, idx, extra')], extra copied along with the state)"""
+    if extra is not None:
+        res = []
+        for s2, pack, i in _disc_fork(ex, st, _Pack(val, extra), n):
+            res.append((s2, pack.val, i, pack.extra))
+        return res
     d = val.disc
     if isinstance(d, int):
         return [(st, val, d)]
     outs = []
     cases = [i for i in range(n) if ex.feasible(st, d == i)]
     for j, i in enumerate(cases):
-        s2 = st if j == len(cases) - 1 else st.clone()
+        # state and value are copied TOGETHER so that the value stays the object inside the copy
+        s2, v2 = (st, val) if j == len(cases) - 1 else copy.deepcopy((st, val))
         s2.pc.append(d == i)
-        v2 = val if j == len(cases) - 1 else copy.deepcopy(val)
         outs.append((s2, v2, i))
     return outs
 
 
-def _payload(ex, val, vname, k, ty="?"):
+class _Pack:
+    def __init__(self, val, extra):
+        self.val, self.extra = val, extra
+
+    @property
+    def disc(self):
+        return self.val.disc
+
+
+def generic_args(ty):
+    from .mir_parse import split_top
+    t = (ty or "").strip()
+    i = t.find("<")
+    if i < 0 or not t.endswith(">"):
+        return []
+    return split_top(t[i + 1:-1])
+
+
+def payload_type(ty, vname, k=0):
+    base = enum_base(ty)
+    ga = [g for g in generic_args(ty) if not g.startswith("'")]
+    try:
+        if base == "Option" and vname == "Some":
+            return ga[0]
+        if base == "Result":
+            return ga[0] if vname == "Ok" else ga[1]
+        if base == "ControlFlow":
+            return ga[1] if vname == "Continue" else ga[0]
+        if base == "Poll" and vname == "Ready":
+            return ga[0]
+    except IndexError:
+        pass
+    return "?"
+
+
+def disc_of(v):
+    """discriminant (int or z3 Int) of an enum-like value"""
+    if isinstance(v, Enum):
+        return v.disc
+    if isinstance(v, Sym):
+        if "disc" not in v.tags:
+            v.tags["disc"] = z3.Int("d_%s_%d" % (re.sub(r"\W", "_", v.name)[-30:], v.id))
+        return v.tags["disc"]
+    raise Unsupported("no discriminant: %r" % (v,))
+
+
+def _payload(ex, val, vname, k, ty=None):
     pl = val.payloads.setdefault(vname, {"_name": "%s@%s" % (val.name, vname)})
+    if ty is None:
+        ty = payload_type(val.ty, vname, k)
     if k not in pl:
         pl[k] = ex.fresh(ty, "%s.%d" % (pl["_name"], k))
     return pl[k]
@@ -1065,8 +1164,8 @@ def _opt_res_simple(ex, st, fr, callee, args, dty):
         return [(st, (z3.BoolVal(d == some_i) if isinstance(d, int) else d == some_i))]
     if meth in ("is_none", "is_err"):
         d = x.disc
-        return [(st, (z3.BoolVal(d != some_i) if isinstance(d, int) else d != some_i))]
-    for s2, v, i in _disc_fork(ex, st, x, 2):
+        return [(st, (z3.BoolVal(d != some_i) if isinstance(d, int) else d == (1 - some_i)))]
+    for s2, v, i, args in _disc_fork(ex, st, x, 2, extra=list(args)):
         hit = i == some_i
         if meth == "ok":
             outs.append((s2, _mk(ex, dty, "Option", "Some", [_payload(ex, v, "Ok", 0)]) if hit else _mk(ex, dty, "Option", "None", [])))
@@ -1141,6 +1240,8 @@ def _opt_res_simple(ex, st, fr, callee, args, dty):
 
 def _opt_take(ex, st, fr, callee, args, dty):
     a = args[0]
+    if isinstance(a, Sym) and re.match(r"^(&|\*)", a.ty or ""):
+        a = Ref(ex.pointee(a))
     if not isinstance(a, Ref):
         return None
     v = ex.read(st, a.obj, a.path, None)
@@ -1153,6 +1254,8 @@ def _opt_take(ex, st, fr, callee, args, dty):
 
 def _mem_take(ex, st, fr, callee, args, dty):
     a = args[0]
+    if isinstance(a, Sym) and re.match(r"^(&|\*)", a.ty or ""):
+        a = Ref(ex.pointee(a))
     if not isinstance(a, Ref):
         return None
     v = ex.read(st, a.obj, a.path, dty)
@@ -1166,6 +1269,8 @@ def _mem_take(ex, st, fr, callee, args, dty):
 
 def _mem_replace(ex, st, fr, callee, args, dty):
     a = args[0]
+    if isinstance(a, Sym) and re.match(r"^(&|\*)", a.ty or ""):
+        a = Ref(ex.pointee(a))
     if not isinstance(a, Ref):
         return None
     v = ex.read(st, a.obj, a.path, dty)
@@ -1273,9 +1378,8 @@ def _range_next(ex, st, fr, callee, args, dty):
     outs = []
     for i, nm in ((1, "Some"), (0, "None")):
         if ex.feasible(st, d == i):
-            s2 = st.clone() if i == 1 else st
+            s2, it = copy.deepcopy((st, args[0])) if i == 1 else (st, args[0])
             s2.pc.append(d == i)
-            it = args[0]
             ex.event(s2, "iter_next", nm, [it])
             if i == 1:
                 outs.append((s2, _mk(ex, dty, "Option", "Some", [ex.fresh(re.sub(r"^.*?Option<(.*)>$", r"\1", dty or "?"), "item%d" % len(s2.trace))])))
